@@ -5,6 +5,7 @@ import (
 	"go/constant"
 	"go/token"
 	"math/big"
+	"strings"
 
 	"golang.org/x/tools/go/ssa"
 
@@ -32,6 +33,16 @@ func runC13(e *Env) {
 	ruleC13Sep(e)
 	ruleC13Group(e)
 	ruleC13Emit(e)
+	ruleC13Methods(e)
+	// the digit text and the destination buffer must not share storage, and the caller's prefix is only appended to
+	if df := e.Fn("C13.emit", "size", "DefaultFormatter"); df != nil {
+		e.FlowAs(map[string]string{"C16.indep": "C13.buffer", "C16.append": "C13.buffer"}, func(c *flow.Ctx) {
+			c.RuleAppendOnly(df)
+			c.RuleBufIndependent(df)
+		})
+	}
+	e.S.Floor("C13.buffer", 2)
+	e.S.Floor("C13.methods", 7)
 	e.S.Floor("C13.emit", 3)
 	e.S.Floor("C13.tab", 10)
 	e.S.Floor("C13.sep", 4)
@@ -607,4 +618,89 @@ func isSingleElemOf(v ssa.Value, text ssa.Value) bool {
 		return false
 	}
 	return flow.Strip(ia.X) == text
+}
+
+// ruleC13Methods: String / PrettyString / PrettyHTML render through the package-level Formatter with the documented
+// flag and an empty buffer, independent of the marshal switches; the result is the formatter's bytes unchanged.
+func ruleC13Methods(e *Env) {
+	const rule = "C13.methods"
+	gv := e.Var(rule, "size", "Formatter")
+	if gv != nil {
+		f := e.C.GlobalFuncInit(gv)
+		if f == nil || flow.Origin(f) != e.F("size", "DefaultFormatter") {
+			e.S.Bad(rule, "size.Formatter", "initialiser", "the package-level Formatter is not initialised to DefaultFormatter or is reassigned inside the module", "", "")
+		} else {
+			e.S.Ok(rule, "size.Formatter", "initialiser", "= DefaultFormatter, never reassigned inside the module", "")
+		}
+	}
+	pretty, ok1 := tabConstInt(e, "size", "FormatPretty")
+	html, ok2 := tabConstInt(e, "size", "FormatHTML")
+	if !ok1 || !ok2 {
+		e.S.Unk(rule, "size", "flags", "FormatPretty/FormatHTML constants not found", "")
+		return
+	}
+	sums := map[string]pred.Summary{}
+	if f := e.F("size", "DefaultFormatter"); f != nil {
+		sums[f.String()] = func(ev *pred.Evaluator, args []pred.Val) (pred.Val, error) {
+			return pred.Term{Fn: "DefaultFormatter", Args: args}, nil
+		}
+	}
+	for _, m := range []struct {
+		name string
+		flag int64
+		onEr string // "panic" or "decimal"
+	}{{"String", 0, "decimal"}, {"PrettyString", pretty, "panic"}, {"PrettyHTML", pretty | html, "panic"}} {
+		fn := e.Method(rule, "size", "Size", m.name)
+		if fn == nil {
+			continue
+		}
+		site := flow.FnName(fn)
+		call := fmt.Sprintf("dyn:*size.Formatter(nil,s,%d)", m.flag)
+		leaves, err := extractTree(e.P.SSA, fn, func() []pred.Val { return []pred.Val{pred.Sym{Name: "s"}} }, sums, nil, errKeyOf, binDomain)
+		if err != nil {
+			e.S.Unk(rule, site, m.name, err.Error(), e.Pos(fn))
+			continue
+		}
+		for _, lf := range leaves {
+			// the buffer argument may be nil or any fresh zero-length slice (capacity is only an allocation hint)
+			call := call
+			pre, suf := "nil? dyn:*size.Formatter#1(", fmt.Sprintf(",s,%d)", m.flag)
+			for k := range lf.Assign {
+				if strings.HasPrefix(k, pre) && strings.HasSuffix(k, suf) {
+					buf := k[len(pre) : len(k)-len(suf)]
+					if buf == "nil" || strings.HasPrefix(buf, "slice[:0](&makeslice#") && strings.Count(buf, "(") == 1 {
+						call = "dyn:*size.Formatter(" + buf + suf
+					}
+				}
+			}
+			v, asked := lf.Assign["nil? "+ext(call, 1)]
+			switch {
+			case !asked:
+				e.S.Bad(rule, site, m.name, fmt.Sprintf("does not render through the package-level Formatter(<empty buffer>, s, %d) (asked: %s)", m.flag, lf.String()), e.Pos(fn), "")
+			case v == 0:
+				if lf.Err != nil {
+					e.S.Unk(rule, site, m.name+" ok", lf.Err.Error(), e.Pos(fn))
+				} else if got := lf.Out.Ret.String(); got == ext(call, 0) && len(lf.Assign) == 1 {
+					e.S.Ok(rule, site, m.name+" ok", fmt.Sprintf("= Formatter(nil, s, %d) converted (%s)", m.flag, got), e.Pos(fn))
+				} else {
+					e.S.Bad(rule, site, m.name+" ok", "result "+got+fmt.Sprintf("; documented: the bytes of Formatter(nil, s, %d)", m.flag), e.Pos(fn), "")
+				}
+			default:
+				switch {
+				case m.onEr == "panic" && lf.Out != nil && lf.Out.Panic:
+					e.S.Ok(rule, site, m.name+" error", "panics on a formatter error, as documented", e.Pos(fn))
+				case m.onEr == "decimal" && lf.Err == nil && lf.Out != nil && !lf.Out.Panic && strings.Contains(lf.Out.Ret.String(), "FormatUint"):
+					e.S.Ok(rule, site, m.name+" error", "on a formatter error returns the plain decimal ("+lf.Out.Ret.String()+")", e.Pos(fn))
+				default:
+					msg := ""
+					if lf.Err != nil {
+						msg = lf.Err.Error()
+					} else if lf.Out != nil {
+						msg = lf.Out.Ret.String()
+					}
+					e.S.Bad(rule, site, m.name+" error", "formatter error path: "+msg, e.Pos(fn), "")
+				}
+			}
+		}
+	}
 }
